@@ -40,8 +40,8 @@ static int staged_restart() {
 }
 int main(int argc, char **argv) {
   if (argc < 3) return 2; std::string task(argv[1]);
-  if (task == "k_moving_update_staged") { char d2[] = "/var/tmp/cvkmovXXXXXX"; if (!mkdtemp(d2)) return 2; if (chdir(d2)) return 2; return staged_restart(); }
-  char dir[] = "/var/tmp/cvkmovXXXXXX"; if (!mkdtemp(dir)) return 2; if (chdir(dir)) return 2;
+  if (task == "k_moving_update_staged") { char d2[] = "./cvkmovXXXXXX"; if (!mkdtemp(d2)) return 2; if (chdir(d2)) return 2; return staged_restart(); }
+  char dir[] = "./cvkmovXXXXXX"; if (!mkdtemp(dir)) return 2; if (chdir(dir)) return 2;
   run_proxy *proxy = new run_proxy();
   proxy->set_unit_system("real", false); proxy->set_output_prefix("km");
   proxy->colvars->setup_input(); proxy->colvars->setup_output();
